@@ -49,6 +49,8 @@ def coq_iop(op, D, stage):
         return f"(IConv {qc_vec(op['kernel'])})"
     if k == "resize":
         g = f"(OResize {zl(op['size'])} {ob(op.get('ac'))})"
+    elif k == "down" and op["levels"] < 0:   # Grid.downsample(levels < 0) doubles the size: same derivation as upsample
+        g = f"(OUp {-op['levels']}%nat {dims(op.get('dims'))} {ob(op.get('ac'))})"
     elif k == "down":
         g = f"(ODown {op['levels']}%nat {dims(op.get('dims'))} ({op.get('min_size', 0)})%Z {ob(op.get('ac'))})"
     elif k == "up":
@@ -145,7 +147,8 @@ def correspondence(ctx):
             items.append(((i, k), f"stages_ok tol {D} (run_iops {D} {iops} {g0} {im0}) {exp}"))
             nstage += len(stages)
         for o in ops:
-            tag = o["op"] + (":gauss" if o["op"] == "down" and o.get("sigma", 0) is None else "")
+            tag = o["op"] + (":negative-levels" if o["op"] == "down" and o["levels"] < 0 else
+                             ":gauss" if o["op"] == "down" and o.get("sigma", 0) is None else "")
             dist[tag] = dist.get(tag, 0) + 1
         dist[f"len{len(ops)}"] = dist.get(f"len{len(ops)}", 0) + 1
         dist[f"D{D}:N{len(c['grids'])}:{'ramp' if c['ramp'] else 'random'}"] = dist.get(f"D{D}:N{len(c['grids'])}:{'ramp' if c['ramp'] else 'random'}", 0) + 1
